@@ -1,18 +1,18 @@
 (* C02 - An immediate-mode bound property always equals its expression over its inputs.
    (see DESIGN.md 6/C02)  Two layers:
    1. the abstract propagation model coq/PropAbs.v - markDirty with early return, cached re-evaluation, setHelper with equality
-      suppression, nested notification: consistency after every assignment for EVERY network of unary/binary operator trees, EVERY
+      suppression, nested notification: consistency after every assignment for EVERY network of operator trees (arity 1-3), EVERY
       interpretation of the user functions and EVERY delivery order of every valueChanged signal (C02_*_partial below);
    2. the executable model coq/PropDefs.v (tables, handles, observers, logs, the model that is run against the library): on worlds
-      whose immediate bindings are unary/binary operator trees and whose observers do not act, Property::setHelper IS the abstract
+      whose immediate bindings are operator trees (arity 1-3) and whose observers do not act, Property::setHelper IS the abstract
       `set` (refinement, coq/PropSim.v: C02_set_helper_refines_abstract_set), hence a coherent world stays coherent under every
       assignment that returns normally and every immediately bound property equals its expression recomputed from scratch over the
       current values (C02_assignment_keeps_coherence, C02_bound_equals_expression_recomputed).
    3. coherence is established and kept by every history of a GROWING network (coq/PropGrow.v): new properties, plain observers,
-      fresh properties bound with immediate evaluation to unary/binary operator expressions over existing properties (bound ones
+      fresh properties bound with immediate evaluation to operator expressions (arity 1-3) over existing properties (bound ones
       included, the same input any number of times), assignments to inputs - in every world such a history reaches, every bound
       property equals its expression recomputed from scratch (C02_growing_network_consistent).
-   PARTIAL: ternary operators, observers that write, rebinding / reset / moves / destruction between assignments are covered by
+   PARTIAL: observers that write, rebinding / reset / moves / destruction between assignments are covered by
    PropCheck.check_c02 on every world reached by the generated histories and by correspondence, not by the refinement. *)
 From Coq Require Import List ZArith.
 Import ListNotations.
@@ -22,38 +22,38 @@ From KDB Require Util PropDefs PropLink PropCheck PropSim PropGrow.
 (* Inv s [] says: every node of every binding is clean, every cached result is the denotation of its subtree, every
    bound property equals the denotation of its expression, every leaf is subscribed to its input. *)
 Theorem C02_immediate_consistent_partial :
-  forall F1 F2 order fuel s p v,
-    tr s p = None -> oof s = false -> Inv F1 F2 order s [] ->
-    oof (PropAbs.set F1 F2 order fuel s p v) = false ->
-    Inv F1 F2 order (PropAbs.set F1 F2 order fuel s p v) [].
+  forall F1 F2 F3 order fuel s p v,
+    tr s p = None -> oof s = false -> Inv F1 F2 F3 order s [] ->
+    oof (PropAbs.set F1 F2 F3 order fuel s p v) = false ->
+    Inv F1 F2 F3 order (PropAbs.set F1 F2 F3 order fuel s p v) [].
 Proof. exact set_consistent. Qed.
 Print Assumptions C02_immediate_consistent_partial.
 
 (* ... after every finite sequence of assignments to inputs *)
 Theorem C02_histories_partial :
-  forall F1 F2 order fuel ws s,
-    (forall p v, In (p, v) ws -> tr s p = None) -> oof s = false -> Inv F1 F2 order s [] ->
-    oof (sets F1 F2 order fuel s ws) = false -> Inv F1 F2 order (sets F1 F2 order fuel s ws) [].
+  forall F1 F2 F3 order fuel ws s,
+    (forall p v, In (p, v) ws -> tr s p = None) -> oof s = false -> Inv F1 F2 F3 order s [] ->
+    oof (sets F1 F2 F3 order fuel s ws) = false -> Inv F1 F2 F3 order (sets F1 F2 F3 order fuel s ws) [].
 Proof. exact sets_consistent. Qed.
 Print Assumptions C02_histories_partial.
 
 (* what the invariant gives for a bound property *)
 Theorem C02_bound_equals_expression :
-  forall F1 F2 order s q t, Inv F1 F2 order s [] -> tr s q = Some t -> env s q = den F1 F2 (env s) t.
+  forall F1 F2 F3 order s q t, Inv F1 F2 F3 order s [] -> tr s q = Some t -> env s q = den F1 F2 F3 (env s) t.
 Proof.
-  intros F1 F2 order s q t HI Ht. destruct (HI q t Ht) as (_ & _ & H & _). apply H. intros p lid _ [].
+  intros F1 F2 F3 order s q t HI Ht. destruct (HI q t Ht) as (_ & _ & H & _). apply H. intros p lid _ [].
 Qed.
 Print Assumptions C02_bound_equals_expression.
 
 (* ---- the executable model ---- *)
 
 (* Property::setHelper on the executable model is the abstract assignment: worlds related by Rel (same values, the trees of the
-   immediate bindings are the abstract trees) stay related; SC = link invariant + no acting observer + unary/binary trees; FR = the
+   immediate bindings are the abstract trees) stay related; SC = link invariant + no acting observer + operator trees; FR = the
    assignment changes no subscription, no binding structure, no signal ownership *)
 Theorem C02_set_helper_refines_abstract_set :
   forall fn rtl order f w q v w' s,
     PropSim.SC w -> PropSim.ORDOK order w -> PropSim.Rel w s -> PropDefs.set_helper fn rtl f w q v = (w', None) ->
-    PropSim.SC w' /\ PropSim.FR w w' /\ PropSim.Rel w' (PropAbs.set (PropSim.F1 fn) (PropSim.F2 fn) order f s q v).
+    PropSim.SC w' /\ PropSim.FR w w' /\ PropSim.Rel w' (PropAbs.set (PropSim.F1 fn) (PropSim.F2 fn) (PropSim.F3 fn) order f s q v).
 Proof. exact PropSim.sim_set. Qed.
 Print Assumptions C02_set_helper_refines_abstract_set.
 
